@@ -49,9 +49,24 @@ func ResolveRef(root interface{}, ref *Ref) (*Schema, error) {
 			return nil, err
 		}
 		return newSch, nil
-	default:
-		return nil, fmt.Errorf("type: %T: %w", sch, ErrUnknownTypeForReference)
+	case *SchemaOrArray:
+		// items holding a single schema
+		if sch != nil && sch.Schema != nil {
+			return sch.Schema, nil
+		}
+	case *SchemaOrBool:
+		// additionalProperties / additionalItems holding a schema
+		if sch != nil && sch.Schema != nil {
+			return sch.Schema, nil
+		}
+	case SchemaOrStringArray:
+		// a schema dependency
+		if sch.Schema != nil {
+			return sch.Schema, nil
+		}
 	}
+
+	return nil, fmt.Errorf("type: %T: %w", res, ErrUnknownTypeForReference)
 }
 
 // ResolveParameterWithBase resolves a parameter reference against a context root and base path
